@@ -13,8 +13,15 @@ pub struct C08;
 const NEW_NAMES: &[&str] = &["9", "2", "d/9", "d/4"];
 
 fn split_case(case: &str) -> (LibCase, String) {
+    let case = case.strip_suffix("|pre=touch").unwrap_or(case);
     let (a, b) = case.rsplit_once("|new=").expect("C08 case");
     (LibCase::parse(a), b.to_string())
+}
+
+/// `...|pre=touch`: before the rename every note is sent once more, unchanged, through didChange
+/// (a long-lived session: the index entries of every note have been replaced at least once)
+fn is_touched(case: &str) -> bool {
+    case.ends_with("|pre=touch")
 }
 
 fn internal_forms(owner: &str) -> Vec<String> {
@@ -52,7 +59,7 @@ impl Engine for C08 {
     }
     fn rule(&self) -> String {
         format!(
-            "libraries of the libspace alphabet (owner in {{1, 2, d/3}}, one link block over all placements x {{reg, empty, wiki, wikip}} x every internal url form, other notes titled or linking back) x the first link of the owner as rename site x new names {:?} (free, taken, in a sub-directory); textDocument/rename is answered by the real Server, the WorkspaceEdit is applied to a copy of the library (R9) and the result is re-scanned with the independent link scanner: taken name => error and no edit; otherwise the old key is gone, the new note exists with the same content, every link that resolved to the old key resolves to the new one with its text kept or equal to the note's title, every other link still resolves to the same note, notes without such a link are byte-identical. non-trivial = an edit was produced",
+            "libraries of the libspace alphabet (owner in {{1, 2, d/3}}, one link block over all placements x {{reg, empty, wiki, wikip}} x every internal url form, other notes titled or linking back) x the first link of the owner as rename site x new names {:?} (free, taken, in a sub-directory), on a freshly started server and (new name 9; thorough: all) on one that has received a didChange with the unchanged text for every note; textDocument/rename is answered by the real Server, the WorkspaceEdit is applied to a copy of the library (R9) and the result is re-scanned with the independent link scanner: taken name => error and no edit; otherwise the old key is gone, the new note exists with the same content, every link that resolved to the old key resolves to the new one with its text kept or equal to the note's title, every other link still resolves to the same note, notes without such a link are byte-identical. non-trivial = an edit was produced",
             NEW_NAMES
         )
     }
@@ -86,6 +93,10 @@ impl Engine for C08 {
                                 for n in NEW_NAMES {
                                     let lc = LibCase { owner: owner.to_string(), title: t.to_string(), others: o.to_string(), ext: String::new(), blocks: vec![(p.to_string(), k.to_string(), u.clone())] };
                                     emit(&format!("{}|new={}", lc.to_string(), n));
+                                    // the same rename in a session in which every note has been edited
+                                    if *n == "9" || thorough {
+                                        emit(&format!("{}|new={}|pre=touch", lc.to_string(), n));
+                                    }
                                 }
                             }
                         }
@@ -136,10 +147,24 @@ impl Engine for C08 {
             feats.push("new-name-in-subdir".into());
         }
         let state: HashMap<String, String> = lib.iter().map(|(k, v)| (k.clone(), v.clone())).collect();
-        let srv = match guarded(|| server(&state, "")) {
+        let mut srv = match guarded(|| server(&state, "")) {
             Ok(s) => s,
             Err(_) => return CaseResult { outcome: "panic-skip".into(), ..Default::default() },
         };
+        if is_touched(case) {
+            feats.push("session-with-edits".into());
+            let touched = guarded(|| {
+                for (i, (k, t)) in lib.iter().enumerate() {
+                    srv.handle_did_change_text_document(DidChangeTextDocumentParams {
+                        text_document: VersionedTextDocumentIdentifier { uri: uri(k), version: i as i32 },
+                        content_changes: vec![TextDocumentContentChangeEvent { range: None, range_length: None, text: t.clone() }],
+                    });
+                }
+            });
+            if touched.is_err() {
+                return CaseResult { outcome: "panic-skip".into(), ..Default::default() };
+            }
+        }
         let owner_text = &lib[&lc.owner];
         let owner_dir = dir_of(&lc.owner);
         // rename site: first internal link of the owner that resolves inside the library tree
